@@ -253,6 +253,35 @@ def is_head_index(e):
     return isinstance(e, ast.Constant) and e.value == 0 and not isinstance(e.value, bool)
 
 
+def id_of_token(an, e, st, frame):
+    """expr hook: `<expr>.id` of an expression that holds a part token -> 'id:<token>' (a local computed from a part carries the part)"""
+    from .state import is_token
+    if isinstance(e, ast.Attribute) and e.attr == 'id' and not is_self_attr(e):
+        v = an.ev(e.value, st, frame)
+        if is_token(v):
+            return 'id:' + v
+    return NotImplemented
+
+
+def record_carries(an, cl, st, frame, token):
+    """does the call (an add_datapoint) mention the part `token`, directly or through local definitions (`lost_id = lost.id if lost else None`,
+    or the if/else statement form)?  Every name is evaluated in the current state, so a local that still holds the part carries its token."""
+    from .norm import single_defs
+    defs_ = single_defs(frame.func) if frame.func is not None else {}
+    todo, seen_, vals = [cl], set(), set()
+    while todo:
+        e_ = todo.pop()
+        for x in ast.walk(e_):
+            if isinstance(x, ast.Name) and x.id not in seen_:
+                seen_.add(x.id)
+                vals.add(an.ev(x, st, frame))
+                if x.id in defs_:
+                    todo.append(defs_[x.id])
+            elif isinstance(x, ast.Attribute) and x.attr == 'id':
+                vals.add(an.ev(x, st, frame))
+    return token in vals or ('id:' + token) in vals
+
+
 def datapoint(cl, frame):
     """an `add_datapoint(label, sub_label, datapoint)` call, arguments bound by position or keyword and spelled canonically (locals, aliases
     and helper parameters substituted): -> dict(label=constant value | text, sub=text, elts=[ast] | None (the datapoint is not a tuple display),
